@@ -322,7 +322,9 @@ def float_histories(seed, n_hist):
                 d0, v0 = rng.randn(n), rng.randn(n)
                 if "rf" in name or "CDF" in name:
                     d0[3] = v0[3] = 0.0
-                gen, d, v = ts.generator(nt, F0, d0=d0, v0=v0)
+                # how the initial conditions are given: d0 and v0, static initial conditions, static + an initial velocity, v0 only, nothing
+                ickw = [dict(d0=d0, v0=v0), dict(static_ic=True), dict(static_ic=True, v0=v0), dict(v0=v0), {}][(it + order) % 5]
+                gen, d, v = ts.generator(nt, F0, **ickw)
                 Force = np.zeros((n, nt)); Force[:, 0] = F0
                 cur = 0
                 for step in range(rng.randint(3, 14)):
@@ -333,15 +335,15 @@ def float_histories(seed, n_hist):
                         i = rng.randint(1, min(cur + 1, nt - 1) + 1)
                         fv = rng.randn(n); gen.send((i, fv)); Force[:, i] = fv; cur = i
                     ev += 1
-                    ref = f(order).tsolve(Force[:, :cur + 1], d0=d0, v0=v0)
+                    ref = f(order).tsolve(Force[:, :cur + 1], **ickw)
                     sc = max(1.0, abs(ref.d).max(), abs(ref.v).max())
                     if abs(d[:, :cur + 1] - ref.d).max() > 1e-8 * sc or abs(v[:, :cur + 1] - ref.v).max() > 1e-8 * sc:
                         return ev, dict(solver=name, order=order, what="generator arrays differ from batch tsolve after a send history (%s, order %d)" % (name, order),
-                                        max_diff_d=float(abs(d[:, :cur + 1] - ref.d).max()), cur=cur)
+                                        max_diff_d=float(abs(d[:, :cur + 1] - ref.d).max()), cur=cur, initial_conditions=sorted(ickw))
                 for i in range(cur + 1, nt):
                     fv = rng.randn(n); gen.send((i, fv)); Force[:, i] = fv
                 sol = ts.finalize()
-                ref = f(order).tsolve(Force, d0=d0, v0=v0)
+                ref = f(order).tsolve(Force, **ickw)
                 ev += 1
                 for q in "dva":
                     sc = max(1.0, abs(getattr(ref, q)).max())
@@ -391,7 +393,7 @@ def run(tier, seed):
         for d in lst:
             be = "sympy-%s (expand/cancel%s)" % (sp.__version__, "; random exact rational coefficient point" if "random exact" in d["name"] else "")
             run.add_verdicts([report.Verdict(d["name"], d["status"], be, d["seconds"], "post", SU, d["detail"])])
-    ev, cf = float_histories(seed, 3 if tier == "quick" else 40)
+    ev, cf = float_histories(seed, 5 if tier == "quick" else 40)
     run.bounded.append(dict(name="float: random send histories (redo, jump back, add-on) on the real solvers incl. the coupled/complex-modes generator vs batch tsolve",
                             evaluations=ev, failures=0 if cf is None else 1, label="bounded (never counted as proved)"))
     failed = [v for v in run.verdicts if v.status == "failed"]
